@@ -57,12 +57,14 @@ mod probe {
         }
     }
     /// spawns a task that ends when released and hands its JoinHandle back (for ask_join)
-    pub struct SpawnTask(pub oneshot::Receiver<()>);
+    pub struct SpawnTask(pub oneshot::Receiver<()>, pub oneshot::Sender<()>);
     impl Message<SpawnTask> for Peer {
         type Reply = tokio::task::JoinHandle<u32>;
         async fn handle(&mut self, m: SpawnTask, _: &ActorRef<Self>) -> tokio::task::JoinHandle<u32> {
+            let SpawnTask(gate, started) = m;
+            let _ = started.send(());
             tokio::spawn(async move {
-                let _ = m.0.await;
+                let _ = gate.await;
                 11
             })
         }
@@ -190,15 +192,24 @@ mod probe {
         let (peer, pj) = rsactor::spawn::<Peer>(());
         let (boss, bj) = rsactor::spawn::<Boss>(());
         let (tx, rx) = oneshot::channel();
+        let (stx, srx) = oneshot::channel();
         let (b2, p2) = (boss.clone(), peer.clone());
-        let run = tokio::spawn(async move { b2.ask(RunJoin(p2, SpawnTask(rx))).await });
-        tokio::time::sleep(std::time::Duration::from_millis(30)).await;
+        let run = tokio::spawn(async move { b2.ask(RunJoin(p2, SpawnTask(rx, stx))).await });
+        // no timing assumption: the peer has handled SpawnTask, so the boss is inside its handler
+        let _ = srx.await;
         // the boss is inside ask_join, its ask answered, waiting for the task; the peer is free and
         // asks the boss: that ask waits for the boss's handler, which waits for the task - no cycle
         let (p3, b3) = (peer.clone(), boss.clone());
         let cb = tokio::spawn(async move { p3.ask(CallBack(b3)).await });
-        tokio::time::sleep(std::time::Duration::from_millis(30)).await;
-        let edges_mid = rsactor::__verif_wait_for_edges().len();
+        // wait (up to 10 s) until the peer's ask towards the boss is in flight
+        let mut edges_mid = 0;
+        for _ in 0..1000 {
+            edges_mid = rsactor::__verif_wait_for_edges().len();
+            if edges_mid >= 1 || cb.is_finished() {
+                break;
+            }
+            tokio::time::sleep(std::time::Duration::from_millis(10)).await;
+        }
         let _ = tx.send(());
         let run_res = match run.await.unwrap() {
             Ok(v) => format!("ok{v}"),
